@@ -27,7 +27,7 @@ def run(ctx):
                           ctx.pick({"L": L}, {"L": L, "MaxChunk": 2, "Ccs": "{0, 1}"}), variants,
                           nontrivial=lambda e, p: len(p) >= 2 and any(s["exp"]["st"] == "closed" for s in p))
     ctx.cov["exhaustive"] = True
-    net_common.c2s_stream(ctx, "close", n=ctx.pick(80, 3000))
+    net_common.c2s_stream(ctx, "close", n=ctx.pick(80, 800))
     ctx.cov["rule"] = ("paths: every sequence of read/deliver/write/grant/connect-ok/connect-refused/close/close(exc)/"
                        "eof/reset/read-error/write-reset/write-error of length <= %d (close callback on/off, connected / "
                        "connecting) under %d transport variants; plus seeded random recorded programs with a random "
